@@ -7,6 +7,10 @@ ADV = ("rapid-generated scripts (trust configuration x 0-40 events) over the E2 
        "(1 ms .. 5 min), user approve/cancel, trust/waiting flips, local close, transport error, close propagation, application writes, "
        "write failure at the k-th write; two real ShipConnections (client+server role) joined by a harness man-in-the-middle on the synctest clock. ")
 
+HUB = ("real hub.Hub instances (own certificates) talking TLS+websocket over loopback, each with a real MdnsManager on the harness mDNS fabric; the "
+       "entry hub X learns about hub Y points at a per-pair TCP proxy, so every outbound connection is attributable and can be cut or refused; dial "
+       "back-off scaled to [0,1) s; scenarios run in real time, 8 at a time per process. ")
+
 CHECKS = {
     "C07": dict(
         level="exploration",
@@ -63,7 +67,9 @@ CHECKS = {
         rule=ADV + "Oracle: HandleConnectionClosed exactly once per connection object by the end of the run, and within ten virtual "
              "minutes of its transport being closed. non-trivial = >= 2 close causes in one run; distinct = hash of the script",
         runs=[dict(engine="shipsim", test="TestC11", quick=dict(checks=40000, shards=4, timeout=600),
-                   thorough=dict(checks=1600000, shards=16, timeout=3000))],
+                   thorough=dict(checks=1600000, shards=12, timeout=3000)),
+              dict(engine="hubnet", test="TestC11Hub", shrinktime="1s", quick=dict(checks=4, shards=4, timeout=1200),
+                   thorough=dict(checks=48, shards=4, timeout=6000), env=dict(VERIF_BATCH="8"))],
     ),
     "C03": dict(
         level="exploration",
@@ -189,5 +195,31 @@ CHECKS = {
         runs=[dict(engine="hubsim", test="TestC18", quick=dict(checks=12000, shards=4, timeout=600),
                    thorough=dict(checks=400000, shards=16, timeout=3000))],
         assumptions=["the order in which simultaneously due notification goroutines run is sampled by the Go scheduler (GOMAXPROCS 1/2/16), not enumerated"],
+    ),
+    "C05": dict(
+        level="exploration",
+        rule=HUB + ("rapid-generated scenarios: SKI order of the two hubs, registration and visibility in any order and timing (incl. all four "
+              "at once = simultaneous dials / double connection), optional bystander hub, 0-5 disturbances (DisconnectSKI by either side, TCP cut "
+              "of either proxy, refused TCP connections, mDNS disappearance/reappearance) with pauses 0-1.5 s, then a quiet period. Oracle "
+              "(polled, bound 40 s): both registries hold a completed connection, exactly one TCP connection is alive between the hubs, "
+              "numbered payloads cross in both directions through the latest writers; 'quiescent for 6 s and wrong' = violation, 'still busy "
+              "at the bound' = inconclusive. non-trivial = both hubs dialled or a disturbance hit an established connection; distinct = hash "
+              "of the scenario"),
+        runs=[dict(engine="hubnet", test="TestC05", shrinktime="1s", quick=dict(checks=8, shards=4, timeout=1200),
+                   thorough=dict(checks=96, shards=8, timeout=6000), env=dict(VERIF_BATCH="8"))],
+        assumptions=["liveness is decided up to the bound; silent (black-holed) cuts, which the library only notices after its 50 s ping / 60 s pong timers, "
+                     "and hub restarts are not generated"],
+    ),
+    "C10": dict(
+        level="exploration",
+        rule=HUB + ("rapid-generated scenarios over three hubs: 5-18 operations (register, unregister, cancel pairing, disconnect, shutdown, mDNS "
+              "appear/disappear) with pauses 0-1.6 s, so that operations land inside the back-off window of a pending dial as well as after "
+              "it; auto accept off. Oracle on the timestamps of TCP accepts at proxy(X->Y) and of the application callbacks: every outbound "
+              "connection X->Y and every SetupRemoteDevice(Y) on X happens while Y is registered on X (load-aware grace 400 ms + 4x measured "
+              "scheduling overshoot), none after Shutdown() returned, no completed connection to an unregistered SKI at the end. non-trivial "
+              "= an unregister/cancel/shutdown was executed after a register; distinct = hash of the scenario"),
+        runs=[dict(engine="hubnet", test="TestC10", shrinktime="1s", quick=dict(checks=8, shards=4, timeout=1200),
+                   thorough=dict(checks=96, shards=8, timeout=6000), env=dict(VERIF_BATCH="8"))],
+        assumptions=["trust established by a hub on its own (auto accept) is not generated: the plain register/unregister model of user intent applies"],
     ),
 }
